@@ -854,6 +854,11 @@ def _base_parser(tokens, context, context_type, section, natoms=None, delete=Fal
     if natoms is not None and len(atoms) != natoms:
         raise IOError('Found {} atoms while {} were expected.'
                       .format(len(atoms), natoms))
+    if '--' in tokens:
+        # The delimiter was not reached when reading the expected number of
+        # atoms: there are more atoms in front of it.
+        raise IOError('Found more than the {} expected atoms before the "--" '
+                      'delimiter.'.format(natoms))
 
     # Normalize the atom references.
     # Blocks and links treat these references differently.
